@@ -126,16 +126,23 @@ func neoCase(msg string, n int64) {
 	c.Count("flood:neo-clock")
 	js := caseJS{Mode: 1, Msg: []byte(msg), Shape: true, N: n, Why: "neo-clock"}
 	nt := neo.NewTime(time.Unix(1700000000, 0))
-	e := tgerr.New(420, msg)
+	var e *tgerr.Error
+	if p, _ := hx.Recover(func() { e = tgerr.New(420, msg) }); p {
+		c.Violate("parse-panic", fmt.Sprintf("tgerr.New(420, %q) panicked", msg), -1, 0, js)
+		return
+	}
 	type res struct {
-		ok  bool
-		err error
+		ok       bool
+		err      error
+		panicked bool
 	}
 	done := make(chan res, 1)
 	obs := nt.Observe()
 	go func() {
-		ok, err := tgerr.FloodWait(context.Background(), e, tgerr.FloodWaitWithClock(nt))
-		done <- res{ok, err}
+		var ok bool
+		var err error
+		p, _ := hx.Recover(func() { ok, err = tgerr.FloodWait(context.Background(), e, tgerr.FloodWaitWithClock(nt)) })
+		done <- res{ok, err, p}
 	}()
 	select {
 	case <-obs:
@@ -146,6 +153,10 @@ func neoCase(msg string, n int64) {
 	nt.Travel(time.Duration(n+1)*time.Second - time.Nanosecond)
 	select {
 	case r := <-done:
+		if r.panicked {
+			c.Violate("flood-panic", fmt.Sprintf("FloodWait on %q panicked", msg), -1, 0, js)
+			return
+		}
 		c.Violate("flood-returned-early", fmt.Sprintf("FloodWait on %q returned (%v) before %d s + 1 s of fake time", msg, r.ok, n), -1, 0, js)
 		return
 	case <-time.After(30 * time.Millisecond):
@@ -153,6 +164,10 @@ func neoCase(msg string, n int64) {
 	nt.Travel(time.Nanosecond)
 	select {
 	case r := <-done:
+		if r.panicked {
+			c.Violate("flood-panic", fmt.Sprintf("FloodWait on %q panicked", msg), -1, 0, js)
+			return
+		}
 		if !r.ok || r.err != error(e) {
 			c.Violate("flood-wrong-result", fmt.Sprintf("FloodWait on %q returned (%v, %v)", msg, r.ok, r.err), -1, 0, js)
 		}
@@ -162,7 +177,14 @@ func neoCase(msg string, n int64) {
 	// cancellation: returns (false, ctx.Err())
 	ctx, cancel := context.WithCancel(context.Background())
 	cancel()
-	ok, err := tgerr.FloodWait(ctx, e, tgerr.FloodWaitWithClock(neo.NewTime(time.Unix(1700000000, 0))))
+	var ok bool
+	var err error
+	if p, _ := hx.Recover(func() {
+		ok, err = tgerr.FloodWait(ctx, e, tgerr.FloodWaitWithClock(neo.NewTime(time.Unix(1700000000, 0))))
+	}); p {
+		c.Violate("flood-panic", fmt.Sprintf("FloodWait on %q with a cancelled context panicked", msg), -1, 0, js)
+		return
+	}
 	if ok || err != context.Canceled {
 		c.Violate("flood-cancel", fmt.Sprintf("FloodWait on %q with a cancelled context returned (%v, %v)", msg, ok, err), -1, 0, js)
 	}
@@ -204,17 +226,33 @@ func randNum(r *hx.Rand) (string, int64) {
 
 func main() {
 	c = hx.Start("C40", "Run.Check_C40", 1000)
+	defer func() { // a panic that escaped a per-case wrapper becomes a violation, obs.json is still written
+		if v := recover(); v != nil {
+			c.Violate("panic-outside-case-wrapper", fmt.Sprintf("a call into the implementation panicked outside a case wrapper: %v", v), -1, 0, nil)
+			c.Finish()
+		}
+	}()
 	var rp caseJS
 	if c.LoadReplay(&rp) {
 		if rp.Mode == 0 {
-			e := tgerr.New(400, string(rp.Msg))
-			fmt.Printf("replay: tgerr.New(400, %q) -> Type=%q Argument=%d\n", rp.Msg, e.Type, e.Argument)
+			p, v := hx.Recover(func() {
+				e := tgerr.New(400, string(rp.Msg))
+				fmt.Printf("replay: tgerr.New(400, %q) -> Type=%q Argument=%d\n", rp.Msg, e.Type, e.Argument)
+			})
+			if p {
+				fmt.Printf("replay: tgerr.New(400, %q) panicked: %v\n", rp.Msg, v)
+			}
 			parseCase("replay", rp.Msg, rp.Shape, rp.Words, rp.N)
 		} else {
-			rc := &recClock{}
-			e := tgerr.New(420, string(rp.Msg))
-			ok, err := tgerr.FloodWait(context.Background(), e, tgerr.FloodWaitWithClock(rc))
-			fmt.Printf("replay: FloodWait(%q) -> timers=%v ok=%v err=%v\n", rp.Msg, rc.timers, ok, err)
+			p, v := hx.Recover(func() {
+				rc := &recClock{}
+				e := tgerr.New(420, string(rp.Msg))
+				ok, err := tgerr.FloodWait(context.Background(), e, tgerr.FloodWaitWithClock(rc))
+				fmt.Printf("replay: FloodWait(%q) -> timers=%v ok=%v err=%v\n", rp.Msg, rc.timers, ok, err)
+			})
+			if p {
+				fmt.Printf("replay: FloodWait(%q) panicked: %v\n", rp.Msg, v)
+			}
 			floodCase("replay", rp.Msg, rp.Shape, rp.N)
 		}
 		c.Finish()
